@@ -70,12 +70,13 @@ PROPS = {
     },
     "C08": {
         "rule": "1..4 rounds of 1..6 concurrent connections against Http::Endpoint (75 %) or a raw Tcp::Listener (25 %), client behaviour drawn per "
-                "connection from 18 kinds (orderly, close mid-request, half-close, RST idle / with unread data / with pending writes, silence, partial "
+                "connection from 21 kinds (orderly, close mid-request, half-close, RST idle / with unread data / with pending writes, silence, partial "
                 "request then silence, giving up near the idle time-out, stalled reader across idle scans, response time-outs armed/disarmed, file "
                 "responses completed or aborted, replies from another thread aborted, never answered, chunked streams); thread stalls injected; " + NONTRIVIAL,
         "probes_expected": ["behaviour-" + b for b in ["orderly", "close-mid-request", "half-close", "rst-idle", "rst-unread", "rst-pending", "silence",
                             "partial-then-silence", "tmo", "tmoreply", "file", "file-abort", "async-abort", "never-close", "stream",
-                            "silence-close-near-timeout", "silence-abort-near-timeout", "stall-beyond-timeout"]],
+                            "silence-close-near-timeout", "silence-abort-near-timeout", "stall-beyond-timeout",
+                            "abandon-at-once-close", "abandon-at-once-abort", "abandon-at-once-half-close"]],
         "assumptions": ["the descriptor census is taken after all clients are gone and the longest time-out plus 1.5 s have elapsed"],
         "quick": {"batches": [("c08_lifecycle", "plain", 3000), ("c08_moved_timeout", "plain", 16), ("c08_lifecycle", "asan", 300)], "chunk": 50},
         "thorough": {"batches": [("c08_lifecycle", "plain", 80000), ("c08_moved_timeout", "plain", 64), ("c08_lifecycle", "asan", 8000), ("c08_lifecycle", "tsan", 8000)], "chunk": 200},
